@@ -154,6 +154,10 @@ func propC14(c *Ctx, r *Report) {
 		r.floor("clone."+sp.Name, 3)
 	}
 	r.Clauses = append(r.Clauses, "clone freshness (E4): override resolution never writes through memory shared with the caller's module", "evaluator default discipline for the override-initialiser evaluators")
+	r.Clauses = append(r.Clauses, orderClause+" - here: the override evaluators and remappers of package ir and the MSL pipeline-constant path")
+	c.runOperandOrder(r, "order.ir", inPkgs("ir"))
+	c.runOperandOrder(r, "order.msl", inPkgs("msl"))
+	r.floor("order.ir", orderFloors["ir"])
 	r.floor("overrides.ExpressionHandle.remappers", 8)
 	r.floor("overrides.rebuilds", 20)
 }
@@ -171,6 +175,9 @@ func propC13(c *Ctx, r *Report) {
 	r.Extra["functions_reachable_from_pass_entries"] = len(reach)
 	c.runWalkAll(r, "handlewalk", "passes", inPkgs("ir", "dxil/internal/passes"), reachFilter(reach), true, true, nil)
 	c.runRebuild(r, "rebuild.complete", "passes.rebuilds", inPkgs("ir", "dxil/internal/passes", "msl/internal/codegen"), nil)
+	r.Clauses = append(r.Clauses, orderClause+" - here: the passes of package ir and dxil/internal/passes")
+	c.runOperandOrder(r, "order.ir", inPkgs("ir", "dxil/internal/passes"))
+	r.floor("order.ir", orderFloors["ir"])
 	r.floor("passes.rebuilds", 20)
 	r.floor("passes.ExpressionHandle.remappers", 8)
 	r.floor("passes.ExpressionHandle.walkers", 4)
